@@ -35,6 +35,7 @@ type Layout struct {
 	Entities  bool // &quot; &apos; &#x...; with leading zeros / upper-case hex in character data
 	Prolog    int  // 0 none, 1 comment before the root, 2 processing instruction before the root, 3 byte-order mark
 	Epilog    int  // 0 none, 1 comment after the root, 2 white space after the root
+	Extras    bool // optional schema-valid content a conforming IdP may add (Extensions, Advice, NameID / SubjectConfirmationData attributes, AuthenticatingAuthority, foreign attributes)
 	Seed      uint64
 }
 
@@ -56,6 +57,7 @@ func DrawLayout(t *core.Tape) Layout {
 	l.Entities = extra&2 != 0
 	l.Prolog = (extra >> 2) & 3
 	l.Epilog = (extra >> 4) % 3
+	l.Extras = t.Int(4, "lay.extras") == 1
 	return l
 }
 
@@ -72,6 +74,9 @@ func (l Layout) Sig() string {
 	}
 	if l.Entities {
 		x |= 2
+	}
+	if l.Extras {
+		x |= 4
 	}
 	return fmt.Sprintf("L%d.%x.%x%d%d", l.PStyle, b, x, l.Prolog, l.Epilog)
 }
@@ -314,7 +319,11 @@ func (w *xw) assertion(a *LAssertion, st nsStyle, standalone bool) {
 		w.depth++
 		if a.NameID != nil {
 			w.nl()
-			w.textEl(A+"NameID", nil, nil, *a.NameID)
+			var na []attr
+			if w.l.Extras {
+				na = []attr{{"Format", "urn:oasis:names:tc:SAML:1.1:nameid-format:unspecified"}, {"SPNameQualifier", "sp & \"qualifier\""}}
+			}
+			w.textEl(A+"NameID", nil, na, *a.NameID)
 		}
 		if a.HasSubjConf {
 			w.nl()
@@ -327,6 +336,9 @@ func (w *xw) assertion(a *LAssertion, st nsStyle, standalone bool) {
 				sa = optAttr(sa, "Recipient", a.Recipient)
 				if a.SCInResponseTo != "" {
 					sa = append(sa, attr{"InResponseTo", a.SCInResponseTo})
+				}
+				if w.l.Extras {
+					sa = append(sa, attr{"Address", "192.0.2.7"})
 				}
 				w.open(A+"SubjectConfirmationData", nil, sa, true)
 				w.depth--
@@ -384,6 +396,12 @@ func (w *xw) assertion(a *LAssertion, st nsStyle, standalone bool) {
 			w.close(A + "Conditions")
 		}
 	}
+	if w.l.Extras {
+		w.nl()
+		w.open(A+"Advice", nil, nil, false)
+		w.textEl(A+"AssertionIDRef", nil, nil, "_advice-ref")
+		w.close(A + "Advice")
+	}
 	if a.Authn != nil {
 		w.nl()
 		var aa []attr
@@ -400,6 +418,9 @@ func (w *xw) assertion(a *LAssertion, st nsStyle, standalone bool) {
 			w.depth++
 			w.nl()
 			w.textEl(A+"AuthnContextClassRef", nil, nil, *a.Authn.ClassRef)
+			if w.l.Extras {
+				w.textEl(A+"AuthenticatingAuthority", nil, nil, "https://upstream-idp.example/meta")
+			}
 			w.depth--
 			w.nl()
 			w.close(A + "AuthnContext")
@@ -422,7 +443,12 @@ func (w *xw) assertion(a *LAssertion, st nsStyle, standalone bool) {
 				if at.NameFormat != "" {
 					aa = append(aa, attr{"NameFormat", at.NameFormat})
 				}
-				w.open(A+"Attribute", nil, aa, len(at.Values) == 0)
+				var ans []attr
+				if w.l.Extras {
+					ans = []attr{{"xmlns:x500", "urn:oasis:names:tc:SAML:2.0:profiles:attribute:X500"}}
+					aa = append(aa, attr{"x500:Encoding", "LDAP"})
+				}
+				w.open(A+"Attribute", ans, aa, len(at.Values) == 0)
 				if len(at.Values) > 0 {
 					w.depth++
 					for _, v := range at.Values {
@@ -499,6 +525,12 @@ func RenderMessage(m *LResponse, l Layout) string {
 	}
 	if m.Sign != nil {
 		w.b.WriteString(SigSlot(m.ID))
+	}
+	if w.l.Extras {
+		w.nl()
+		w.open(P+"Extensions", nil, nil, false)
+		w.textEl("x:Note", []attr{{"xmlns:x", "urn:example:extension"}}, []attr{{"lang", "en"}}, "extension <content> & more")
+		w.close(P + "Extensions")
 	}
 	if m.Kind == "LogoutRequest" {
 		if m.NameID != nil {
